@@ -148,11 +148,21 @@ func runProgramOn(c *core.Ctx, fsk core.FSKind, cfg core.Config, keys [][]byte, 
 				return trace, fmt.Errorf("copy: %w", err)
 			}
 			segs := db.VerifSegments()
-			if len(segs) > 0 && st.cutHeader && segs[len(segs)-1].Size == 512 {
-				// the newest segment holds nothing but its header: cut the header itself (every file system must refuse alike)
-				name := filepath.Join(nenv.Dir, segs[len(segs)-1].Name)
-				if d, err := nenv.ReadFile(name); err == nil && len(d) == 512 {
-					nenv.WriteFile(name, d[:300])
+			if len(segs) > 0 && st.cutHeader {
+				// a next segment whose header was only partly written (300 of 512 bytes): every file system must treat the
+				// directory alike (the current code refuses to open it)
+				var maxID uint16
+				var maxSeq uint64
+				for _, sg := range segs {
+					if sg.ID > maxID {
+						maxID = sg.ID
+					}
+					if sg.SequenceID > maxSeq {
+						maxSeq = sg.SequenceID
+					}
+				}
+				if d, err := nenv.ReadFile(filepath.Join(nenv.Dir, segs[0].Name)); err == nil && len(d) >= 512 {
+					nenv.WriteFile(filepath.Join(nenv.Dir, fmt.Sprintf("%05d-%d.psg", maxID+1, maxSeq+1)), d[:300])
 				}
 			} else if len(segs) > 0 && len(st.tail) > 0 {
 				name := filepath.Join(nenv.Dir, segs[len(segs)-1].Name)
@@ -379,7 +389,7 @@ func runC17(c *core.Ctx) {
 				tail = make([]byte, 1+rng.Intn(300))
 				rng.Read(tail)
 			}
-			steps = append(steps, c17step{extra: "unclean", tail: tail, cutHeader: rng.Intn(3) == 0})
+			steps = append(steps, c17step{extra: "unclean", tail: tail, cutHeader: rng.Intn(6) == 0})
 		case 3:
 			steps = append(steps, c17step{extra: "backup"})
 		}
